@@ -54,6 +54,8 @@ pub fn classify(msg: &str, stage: u32) -> u32 {
         ("Collision deteced", 15),
         ("should not have unbounded array", 16),
         ("both object array and non-array", 17),
+        ("has more than one input object array", 17),
+        ("has more than one output object array", 17),
         ("Struct with Object inside cannot be used as an array", 18),
         ("should not have bounded array of primitive/struct", 19),
         ("needs more than", 20),
